@@ -7,6 +7,7 @@ Registry for viral attribute propagation rules as defined by the VTL 2.2
 in :mod:`vtlengine.ViralPropagation.sql`.
 """
 
+import threading
 from dataclasses import dataclass, field
 from typing import Any, Dict, List, Optional
 
@@ -72,22 +73,22 @@ class ViralPropagationRegistry:
         self._valuedomain_rules.clear()
 
 
-# Module-level accessor for operators to use.
-# The Interpreter sets this at the start of each run() call.
-_current_registry: Optional[ViralPropagationRegistry] = None
+# Accessor for operators to use. The Interpreter sets the registry at the start of each
+# run() / semantic_analysis() call; it is kept per thread so that calls made concurrently
+# from several threads do not see (or replace) each other's rules.
+_state = threading.local()
 
 
 def get_current_registry() -> ViralPropagationRegistry:
-    """Get the current viral propagation registry."""
-    global _current_registry  # noqa: PLW0603
+    """Get the current viral propagation registry (of the calling thread)."""
     _verif.yield_point("registry.get")
-    if _current_registry is None:
-        _current_registry = ViralPropagationRegistry()
-    return _current_registry
+    registry: Optional[ViralPropagationRegistry] = getattr(_state, "registry", None)
+    if registry is None:
+        registry = _state.registry = ViralPropagationRegistry()
+    return registry
 
 
 def set_current_registry(registry: ViralPropagationRegistry) -> None:
     """Set the current viral propagation registry (called by Interpreter)."""
-    global _current_registry  # noqa: PLW0603
     _verif.yield_point("registry.set")
-    _current_registry = registry
+    _state.registry = registry
